@@ -16,6 +16,7 @@ import (
 	"sort"
 	"strconv"
 	"strings"
+	"syscall"
 
 	"github.com/parquet-go/parquet-go"
 	"github.com/parquet-go/parquet-go/encoding/thrift"
@@ -26,7 +27,23 @@ import (
 	"verif/harness/gen"
 )
 
-func main() { core.Main("C02", run, replay) }
+func main() {
+	// The extracted decoder recurses to a depth proportional to the longest page / list of byte strings (native
+	// stack): a dictionary page of 2^17 values needs more than the usual 8 MB.  The oracle process inherits the
+	// limit of this one: the soft stack limit is raised to 4 GB (or the hard limit).
+	var lim syscall.Rlimit
+	if err := syscall.Getrlimit(syscall.RLIMIT_STACK, &lim); err == nil {
+		want := uint64(4 << 30)
+		if lim.Max < want {
+			want = lim.Max
+		}
+		if lim.Cur < want {
+			lim.Cur = want
+			syscall.Setrlimit(syscall.RLIMIT_STACK, &lim)
+		}
+	}
+	core.Main("C02", run, replay)
+}
 
 type c02Case struct {
 	Gen    gen.Case `json:"gen"`
@@ -408,6 +425,7 @@ func check(c *core.Ctx, cs c02Case) (nontrivial bool, bucket string) {
 		return true, bucket
 	}
 	from := 0
+	var footer *format.FileMetaData
 	groups := []string{}
 	if len(parts) > 1 && parts[1] != "_" {
 		groups = strings.Split(parts[1], "|")
@@ -457,6 +475,18 @@ func check(c *core.Ctx, cs c02Case) (nontrivial bool, bucket string) {
 			if f["V"] != joinOr(vals[ci]) {
 				c.Violation("decoded-values-differ", fmt.Sprintf("row group %d column %d (%s, page encodings %s): values recovered by the specification decoder differ from the values written", gi, ci, leaf.Text(), f["E"]), cs)
 				return true, bucket
+			}
+			if isGeo(leaf.Leaf) {
+				// the geospatial statistics of the chunk describe the values the decoder found in its pages
+				if footer == nil {
+					footer = footerOf(data)
+				}
+				if footer != nil && gi < len(footer.RowGroups) && ci < len(footer.RowGroups[gi].Columns) {
+					if msg := geoChunkCheck(footer.RowGroups[gi].Columns[ci].MetaData.GeospatialStatistics, leaf.Leaf == "geography", f["V"]); msg != "" {
+						c.Violation("geospatial-statistics-do-not-cover", fmt.Sprintf("row group %d column %d (%s): %s; schema %s", gi, ci, leaf.Text(), msg, b.Root.Text()), cs)
+						return true, bucket
+					}
+				}
 			}
 		}
 		from = to
@@ -781,7 +811,22 @@ func runCase(c *core.Ctx, cs c02Case, sample bool) {
 				break
 			}
 		}
-		for cs.Gen.NRows > 1 {
+		if cs.Gen.NRows > 2048 {
+			// tens of thousands of rows (dictionaries of up to 2^18 values): the smallest failing number of rows is
+			// searched by bisection between the half that passed and the number that failed
+			lo, hi := cs.Gen.NRows/2, cs.Gen.NRows
+			for hi-lo > 1 {
+				t := cs
+				t.Gen.NRows = (lo + hi) / 2
+				if c.Probe(func() { check(c, t) }) {
+					hi = t.Gen.NRows
+				} else {
+					lo = t.Gen.NRows
+				}
+			}
+			cs.Gen.NRows = hi
+		}
+		for cs.Gen.NRows > 1 && cs.Gen.NRows <= 2048 {
 			t := cs
 			t.Gen.NRows--
 			if c.Probe(func() { check(c, t) }) {
@@ -826,7 +871,7 @@ func runCase(c *core.Ctx, cs c02Case, sample bool) {
 }
 
 func run(c *core.Ctx) {
-	c.Res.Rule = "files written from generated schemas / value trees / options / Write-Flush histories (see C01), directly (copy0), re-written through Writer.WriteRowGroup from the row groups of the written file with equal (copy1), opposite (copy2: other page version and codec, 300 byte page buffer) or independently drawn options (copy3), or never written directly: rows put in parquet.Buffer row groups handed to WriteRowGroup (copy4) (verbatim copy, column-wise re-encode and row paths); codecs: half of the files draw the file codec and the per-column codecs from UNCOMPRESSED and SNAPPY (decoded in Gallina), the other half from all six (GZIP, BROTLI, ZSTD, LZ4_RAW sections are decoded by the reference C implementations of the codecs, harness/c02/refcodec, which instantiate the decompressor parameter of the Gallina decoder and accept only a complete well-formed stream: a compressed section of zero bytes is not one, class undecodable-compressed-section); null bias 0..7 tenths, and every optional field null in a tenth of the files (all-null chunks: empty dictionary pages and empty v2 data sections). Sorted sources: parquet.Buffer row groups configured with one or two sorting columns (leaves holding one value per row; ascending/descending x nulls first/last), sorted, and written through WriteRowGroup by a writer without a sorting configuration (three quarters) or with the same one, directly (copy4) or once more from the file so written (copy5); the rows written are then the rows as the sorted buffers present them (checked to be the rows they were given), and the decoder checks the sorting_columns each row group declares: column indexes, and nulls of the first sorting column before / after its non-null values as nulls_first says (discrepancy codes sorting_column_idx, sorting_nulls_placement; value order is C05's). Besides the shared generator (nesting depth <= 3, lists <= 24 elements; DictionaryMaxBytes 16..415 in a quarter of the files, so dictionary -> PLAIN fallback inside a chunk occurs) two families of shapes (harness/c02/shapes.go): deep = a spine of nested optional/repeated/required groups with side leaves, the maximum definition level of the deepest column sweeping the level bit widths 1..8 in turn (maximum level in [2^(w-1), 2^w-1], up to 255), repetition levels none / few / any width up to w / width w, null and list-length probabilities scaled to the depth so that levels vary inside groups of 8; long = one repeated field (repeated leaf, repeated group, LIST) whose lists hold up to 300..6000 values (20000 in the thorough tier; lengths spread over the orders of magnitude and around the powers of two) in a third of the rows, next to short rows, with page buffers from 64 bytes. The note of the run lists the bit widths, row lengths and mixed-encoding chunks actually reached. Each file's raw bytes go to the extracted specification decoder, which must (1) parse them, (2) find every claimed offset, size, count, checksum, encoding list, encoding_stats entry ((page type, encoding) counts against the page headers present) and row boundary (v2 pages, and every data page of a chunk that has an offset index, start with repetition level 0) consistent with the bytes (discrepancy codes), (3) return, per row group and column, exactly the repetition levels, definition levels and values that were written. (4) Layout: the page structure observed in the file (raw page headers and bodies found by walking each chunk with the library's thrift decoder, rows per data page as counted by the specification decoder, bloom filter / column index sections, and the footer for the fields that are not offsets, sizes or counts) is given to the model writer File/Layout.v (offset accounting of writer.go; C02_layout_sound_*: its recorded offsets and sizes provably describe its bytes), which must reproduce the library's file byte for byte; a differing offset / size / count of the metadata is the property failing (layout:<field>), any other byte difference a model mismatch; the bucket suffix says whether the decidable hypothesis file_ok of the layout theorems held for the file (footers above 24 kB are left out in the quick tier: the Gallina thrift reader is quadratic; files whose footer exceeds 128 kB are not decoded at all, bucket not-decoded:*, the extracted decoder's recursion depth grows with the footer length). Non-trivial = at least 2 rows; distinct by the JSON of the case."
+	c.Res.Rule = "files written from generated schemas / value trees / options / Write-Flush histories (see C01), directly (copy0), re-written through Writer.WriteRowGroup from the row groups of the written file with equal (copy1), opposite (copy2: other page version and codec, 300 byte page buffer) or independently drawn options (copy3), or never written directly: rows put in parquet.Buffer row groups handed to WriteRowGroup (copy4) (verbatim copy, column-wise re-encode and row paths); codecs: half of the files draw the file codec and the per-column codecs from UNCOMPRESSED and SNAPPY (decoded in Gallina), the other half from all six (GZIP, BROTLI, ZSTD, LZ4_RAW sections are decoded by the reference C implementations of the codecs, harness/c02/refcodec, which instantiate the decompressor parameter of the Gallina decoder and accept only a complete well-formed stream: a compressed section of zero bytes is not one, class undecodable-compressed-section); null bias 0..7 tenths, and every optional field null in a tenth of the files (all-null chunks: empty dictionary pages and empty v2 data sections). Sorted sources: parquet.Buffer row groups configured with one or two sorting columns (leaves holding one value per row; ascending/descending x nulls first/last), sorted, and written through WriteRowGroup by a writer without a sorting configuration (three quarters) or with the same one, directly (copy4) or once more from the file so written (copy5); the rows written are then the rows as the sorted buffers present them (checked to be the rows they were given), and the decoder checks the sorting_columns each row group declares: column indexes, and nulls of the first sorting column before / after its non-null values as nulls_first says (discrepancy codes sorting_column_idx, sorting_nulls_placement; value order is C05's). Besides the shared generator (nesting depth <= 3, lists <= 24 elements; DictionaryMaxBytes 16..415 in a quarter of the files, so dictionary -> PLAIN fallback inside a chunk occurs) two families of shapes (harness/c02/shapes.go): deep = a spine of nested optional/repeated/required groups with side leaves, the maximum definition level of the deepest column sweeping the level bit widths 1..8 in turn (maximum level in [2^(w-1), 2^w-1], up to 255), repetition levels none / few / any width up to w / width w, null and list-length probabilities scaled to the depth so that levels vary inside groups of 8; long = one repeated field (repeated leaf, repeated group, LIST) whose lists hold up to 300..6000 values (20000 in the thorough tier; lengths spread over the orders of magnitude and around the powers of two) in a third of the rows, next to short rows, with page buffers from 64 bytes. The note of the run lists the bit widths, row lengths and mixed-encoding chunks actually reached. Each file's raw bytes go to the extracted specification decoder, which must (1) parse them, (2) find every claimed offset, size, count, checksum, encoding list, encoding_stats entry ((page type, encoding) counts against the page headers present) and row boundary (v2 pages, and every data page of a chunk that has an offset index, start with repetition level 0) consistent with the bytes (discrepancy codes), (3) return, per row group and column, exactly the repetition levels, definition levels and values that were written. (4) Layout: the page structure observed in the file (raw page headers and bodies found by walking each chunk with the library's thrift decoder, rows per data page as counted by the specification decoder, bloom filter / column index sections, and the footer for the fields that are not offsets, sizes or counts) is given to the model writer File/Layout.v (offset accounting of writer.go; C02_layout_sound_*: its recorded offsets and sizes provably describe its bytes), which must reproduce the library's file byte for byte; a differing offset / size / count of the metadata is the property failing (layout:<field>), any other byte difference a model mismatch; the bucket suffix says whether the decidable hypothesis file_ok of the layout theorems held for the file (footers above 24 kB are left out in the quick tier: the Gallina thrift reader is quadratic; files whose footer exceeds 128 kB are not decoded at all, bucket not-decoded:*, the extracted decoder's recursion depth grows with the footer length). Big dictionaries (shape bigdict, shapes.go): one dictionary-encoded column (every dictionary-capable type up to 4096 values, fixed-width types up to 8192, values of 3 or 4 bytes above) whose dictionary holds 2^(w-1)+1 .. 2^w distinct values, w = 9..17 in turn (9..18 in the thorough tier), each written at least once in a random order, then some repeated: bit-packed runs of indexes at every width up to 18, one row group, written directly and through the WriteRowGroup paths; a failing case is shrunk by bisection on the number of rows. GEOMETRY / GEOGRAPHY columns (shape geo, geo.go): WKB points, line strings, polygons and multi-points (XY, XYZ, XYM, XYZM; both byte orders; some empty) whose coordinates lie in a region drawn per column and drift with the row number per axis; (5) the geospatial statistics of a chunk cover the values the decoder recovers from its pages: every coordinate inside a declared bounding box, every type code in a declared type list (class geospatial-statistics-do-not-cover). Non-trivial = at least 2 rows; distinct by the JSON of the case."
 	// codecs: half of the files draw the file codec and the column codecs from the two codecs the Gallina decoder
 	// implements, the other half from all six (GZIP, BROTLI, ZSTD, LZ4_RAW through the reference decoders);
 	// null bias 10 = every optional field null (column chunks, dictionaries and v2 data sections holding no value)
@@ -903,6 +948,24 @@ func run(c *core.Ctx) {
 			Shape: sh, Copy: copyOf([5]int{2, 1, 2, 2, 1}), Layout: true}
 		runCase(c, cs, i < 1)
 	}
+	// big dictionaries: the index bit widths 9..18 in turn (dictionary of 2^(w-1)+1 .. 2^w distinct values, every one of
+	// them written at least once, in a random order: bit-packed runs of indexes of w bits), every dictionary-capable type,
+	// written directly and through the WriteRowGroup paths
+	// (width 18, files of a megabyte, in the thorough tier only)
+	for i, n := 0, c.N(9, 60); i < n; i++ {
+		w := 9 + i%c.N(9, 10)
+		sh := &shape{Kind: "bigdict", Dict: 1<<(w-1) + 1 + c.Rng.Intn(1<<(w-1))}
+		cs := c02Case{Gen: gen.Case{Seed: c.Seed*1000039 + int64(i), NRows: sh.Dict + c.Rng.Intn(sh.Dict/8+1), Codecs: codecs(), NullBias: c.Rng.Intn(4)},
+			Shape: sh, Copy: copyOf([5]int{4, 1, 1, 1, 1}), Layout: w <= 16}
+		runCase(c, cs, false)
+	}
+	// GEOMETRY / GEOGRAPHY columns (geo.go): WKB values whose coordinates drift with the row number; the geospatial
+	// statistics of every chunk must cover the values the decoder finds in its pages
+	for i, n := 0, c.N(24, 240); i < n; i++ {
+		cs := c02Case{Gen: gen.Case{Seed: c.Seed*1000081 + int64(i), NRows: []int{1, 2, 5, 12, 40, 130}[c.Rng.Intn(6)], Codecs: codecs(), NullBias: c.Rng.Intn(6)},
+			Shape: &shape{Kind: "geo"}, Copy: copyOf([5]int{4, 1, 1, 1, 1}), Layout: true}
+		runCase(c, cs, i < 1)
+	}
 	// sorted sources: parquet.Buffer row groups configured with one or two sorting columns (leaves holding one value
 	// per row; ascending / descending x nulls first / last), sorted, and handed to WriteRowGroup of a writer that has
 	// no sorting configuration of its own (it takes the declaration from the row group) or the same one; directly
@@ -950,6 +1013,8 @@ func run(c *core.Ctx) {
 		dims.chunks, dims.defWidth[1:], dims.repWidth[1:], dims.longestRow, dims.longRows, dims.mixedEncodings)
 	c.Note("compressed sections decoded by the reference implementations (distinct sections; codec numbers of parquet.thrift: 2 GZIP, 4 BROTLI, 6 ZSTD, 7 LZ4_RAW): %v, of which with empty content: %v; row groups written from sorted sources: %d, of which %d whose first sorting column holds nulls and non-null values",
 		dims.sections, dims.emptySections, dims.sortedGroups, dims.sortedMixed)
+	c.Note("geospatial statistics: %d chunks of GEOMETRY / GEOGRAPHY columns, %d with a bounding box; %d WKB values checked against them, %d against a list of geospatial types",
+		geoDims.chunks, geoDims.boxes, geoDims.values, geoDims.typed)
 	if dims.stackOverflows > 0 {
 		c.Note("%d evaluations (shrinking probes included) were not decoded: the extracted decoder exhausted its native stack (bucket not-decoded:decoder-stack-overflow)", dims.stackOverflows)
 	}
